@@ -44,6 +44,8 @@ inductive Expr where
   | atomicLoad (kind : String) (addr : Expr)
   /-- `m.f` for the receiver `m` -/
   | recvField (f : String)
+  /-- `new(bucketOfPadded)` (only as the right-hand side of `:=`) -/
+  | newBucket
   deriving Repr
 
 inductive Stmt where
@@ -52,6 +54,8 @@ inductive Stmt where
   /-- `x := e` -/
   | define (x : String) (e : Expr)
   | assign (x : String) (e : Expr)
+  /-- a store through a pointer: `b.meta = e`, `b.entries[i] = e`, `b.next = e` -/
+  | store (lhs rhs : Expr)
   /-- `x op= e` -/
   | opAssign (op : BOp) (x : String) (e : Expr)
   | ifThen (c : Expr) (thn els : Stmt)
